@@ -14,9 +14,14 @@ def ccw_ok(poly):
     n = V3(poly.plane.n)
     k = len(pts)
     cs = []
+    # every other vertex lies strictly to the left of every directed edge: a simple convex cycle (left turns at every corner alone
+    # would also accept star orders that wind around the centre twice)
     for i in range(k):
-        a, b, c = pts[i], pts[(i + 1) % k], pts[(i + 2) % k]
-        cs.append(R.dot(R.cross(R.vsub(b, a), R.vsub(c, b)), n) > 0)
+        a, b = pts[i], pts[(i + 1) % k]
+        for j in range(k):
+            if j in (i, (i + 1) % k):
+                continue
+            cs.append(R.dot(R.cross(R.vsub(b, a), R.vsub(pts[j], a)), n) > 0)
     return And(*cs)
 
 
@@ -143,6 +148,9 @@ def families(tier, seed):
             perms = [list(p) for p in itertools.permutations(range(n))]
         else:
             perms = [list(range(n)), list(reversed(range(n)))] + [rng.sample(range(n), n) for _ in range(4 if tier == 'quick' else 20)]
+        # star orders (every corner turns the same way although the list winds around the centre twice): only possible from 5 vertices on
+        stars = {5: [[0, 2, 4, 1, 3], [0, 3, 1, 4, 2]], 6: [[0, 2, 4, 1, 3, 5], [0, 1, 3, 5, 2, 4], [0, 3, 1, 5, 4, 2]]}.get(n, [])
+        perms += [q for q in stars if q not in perms]
         for pi, perm in enumerate(perms):
             # repeats at the tail (closed ring), at the head (a, a, b, ...) and inside the first entries (a, b, b, b, c, ...)
             dmode = ['', '+dup', '', '+duphead', '', '+dupmid'][pi % 6]
